@@ -37,7 +37,7 @@ AllActions ==
   \cup {[op |-> "KidOwned", x |-> x, y |-> y] : x \in Used, y \in Dst}
   \cup {[op |-> "KidBorrowed", x |-> x, which |-> w, m |-> m, a |-> a] :
           x \in Used, w \in {"ref", "mut"}, m \in {"ra_get", "ra_mix", "ma_add", "ma_peek"}, a \in Args}
-  \cup {[op |-> "Consume", x |-> x, m |-> m] : x \in Used, m \in {"ob_take", "ob_into"}}
+  \cup {[op |-> "Consume", x |-> x, m |-> m] : x \in Used, m \in ConsumeMethods}
   \cup {[op |-> "ConsumeEnd", y |-> y] : y \in Handle}
   \cup {[op |-> "Drop", x |-> x] : x \in Used}
 
